@@ -306,3 +306,10 @@ Definition dedupe_inplace (l : list string) : list string * list string :=
 Definition namer (cap : nat) (h : string -> string -> string) (seed nsname : string) : string :=
   if Nat.leb (String.length nsname) cap then nsname
   else String.substring 0 cap nsname ++ "_" ++ h seed nsname.
+
+(* ------------------------------------------------------------------ slices.Compact: only ADJACENT duplicates go *)
+Fixpoint compact (l : list string) : list string :=
+  match l with
+  | x :: ((y :: _) as r) => if String.eqb x y then compact r else x :: compact r
+  | _ => l
+  end.
